@@ -12,3 +12,5 @@ for c in $CHECKS; do
   echo "$out" | grep -A1 '^VIOLATION' | head -4
 done
 git -C /repo checkout -- .
+# evidence written while /repo was patched is not evidence for the unchanged tree: restore the committed files
+git -C /verif checkout -- evidence/
